@@ -39,6 +39,8 @@ def cases(tier, seed):
     n, length = (60, 8) if tier == "quick" else (3000, 14)
     for i in range(n):
         yield {"seed": seed, "idx": i, "length": length}
+    for i in range(24 if tier == "quick" else 400):
+        yield {"kind": "rebind", "seed": seed, "idx": i}
 
 
 def build_events(case):
@@ -237,7 +239,119 @@ def inproc_child(arg):
     return {"steps": steps, "cells": log.cells}
 
 
+# ---------------------------------------------------------------- helpers re-bound to functions of other modules
+REBIND_MAIN = """import twosigma.memento as m
+from vf.recorder import REC
+%(import_other)s
+FACTOR = %(f_main)d
+
+def scale(x):
+    return x %(op)s FACTOR
+
+def scale2(x):
+    return x %(op)s FACTOR %(op)s 2
+
+@m.memento_function
+def report(x):
+    REC.hit("report", x)
+    return scale(x) + 1
+
+@m.memento_function
+def total(x):
+    REC.hit("total", x)
+    return report(x) + %(const)d
+"""
+REBIND_OTHER = """FACTOR = %(f_other)d
+
+def scale(x):
+    return x %(op)s FACTOR
+
+def scale3(x):
+    return x %(op)s FACTOR %(op)s 3
+"""
+REBINDS = {  # statement executed in the main module, after versions were asked once
+    "same_code_other_globals": "from %(pkg)s.other import scale",           # byte-identical code, another FACTOR
+    "other_code": "from %(pkg)s.other import scale3 as scale",
+    "own_sibling": "scale = scale2",
+    "attribute": "import %(pkg)s.other as _o\nscale = _o.scale",
+    "variable_only": "FACTOR = FACTOR + 5",
+}
+
+
+def rebind_child(arg):
+    root, pkg, how = arg["root"], arg["pkg"], arg["how"]
+    sys.path.insert(0, root)
+    env.set_env(os.path.join(root, "env"), default_storage=env.mem_backend())
+    main = importlib.import_module(pkg + ".main")
+    res = {"before": {n: getattr(main, n).version() for n in ("report", "total")}}
+    if arg.get("live"):
+        if arg.get("call_first"):
+            main.total(3)
+        src = REBINDS[how] % {"pkg": pkg} + "\n"
+        name = "<vf13-rebind>"
+        linecache.cache[name] = (len(src), None, src.splitlines(True), name)
+        exec(compile(src, name, "exec"), main.__dict__)
+    for n in (["total", "report"] if arg.get("order") else ["report", "total"]):
+        try:
+            res.setdefault("after", {})[n] = getattr(main, n).version()
+        except Exception as e:
+            res.setdefault("after", {})[n] = "raise:%s: %s" % (type(e).__name__, str(e)[:120])
+    return res
+
+
+def run_rebind(case):
+    """A plain helper of a memento function is re-bound, in the running process and without any registration, to
+    another existing function (of another module, with byte-identical or different code, ...). Oracle: a fresh
+    process importing the text in which the re-binding statement follows the definitions."""
+    import importlib as _il
+
+    out = {"viol": [], "nontrivial": [], "obs": collections.Counter(), "sets": {"event_kinds": set()}}
+    rng = core.rng_for(case["seed"], ID, "rebind", case["idx"])
+    how = list(REBINDS)[case["idx"] % len(REBINDS)]
+    pkg = "vp13r_%d_%d" % (case["seed"], case["idx"])
+    params = {"f_main": rng.randint(2, 5), "f_other": rng.randint(6, 9), "op": rng.choice(["*", "+", "-"]), "const": rng.randint(1, 9),
+              "import_other": ""}
+    with env.Scratch() as sc:
+        def write(root, tail):
+            d = os.path.join(root, pkg)
+            os.makedirs(d)
+            open(os.path.join(d, "__init__.py"), "w").close()
+            with open(os.path.join(d, "other.py"), "w") as f:
+                f.write(REBIND_OTHER % params)
+            with open(os.path.join(d, "main.py"), "w") as f:
+                f.write(REBIND_MAIN % params + tail)
+
+        write(sc.path("live"), "")
+        write(sc.path("fresh"), "\n" + REBINDS[how] % {"pkg": pkg} + "\n")
+        try:
+            live = procs.in_child(rebind_child, {"root": sc.path("live"), "pkg": pkg, "how": how, "live": True,
+                                                "call_first": rng.random() < 0.5, "order": rng.random() < 0.5})
+            fresh = procs.in_child(rebind_child, {"root": sc.path("fresh"), "pkg": pkg, "how": how})
+        except procs.ChildFailed as e:
+            out["viol"].append({"sig": "running a re-binding scenario failed (%s)" % e.kind, "msg": str(e)[-800:]})
+            out["obs"] = dict(out["obs"])
+            out["sets"] = {}
+            return out
+        out["sets"]["event_kinds"].add("rebind:" + how)
+        for n, v in live["after"].items():
+            out["obs"]["versions_compared"] += 1
+            out["obs"]["versions_compared_after_rebinding_a_helper"] += 1
+            if v != fresh["after"][n]:
+                out["viol"].append({"sig": "in-process version differs from the version a fresh process computes (after a plain helper "
+                                           "was re-bound to %s)" % how.replace("_", " "),
+                                    "msg": "%s: %s has version %s in the running process (before: %s), %s from scratch; statement %r; "
+                                           "parameters %s" % (pkg, n, v, live["before"][n], fresh["after"][n], REBINDS[how] % {"pkg": pkg}, params)})
+        if live["before"] != live["after"]:
+            out["nontrivial"].append("rebind:%s:%d" % (how, case["idx"]))
+        out["sample"] = {"rebind": how, "statement": REBINDS[how] % {"pkg": pkg}, "before": live["before"], "after": live["after"]}
+    out["obs"] = dict(out["obs"])
+    out["sets"] = {k: sorted(v) for k, v in out["sets"].items()}
+    return out
+
+
 def run_case(case):
+    if case.get("kind") == "rebind":
+        return run_rebind(case)
     out = {"viol": [], "nontrivial": [], "obs": collections.Counter(), "sets": {"event_kinds": set()}}
 
     def fail(sig, msg):
@@ -303,5 +417,5 @@ def run_case(case):
 
 def conclude(agg):
     return core.first(core.need(agg, "versions_compared", 500), core.need(agg, "runtime_objects_checked", 10),
-                      core.need(agg, "interleaved_queries", 10),
+                      core.need(agg, "interleaved_queries", 10), core.need(agg, "versions_compared_after_rebinding_a_helper", 30),
                       None if len(agg.sets.get("event_kinds", ())) >= 15 else "too few event kinds"), {}
